@@ -178,7 +178,7 @@ def gen_case(rng, primes, stats):
             stats["fd"] += 1
         elif k < 88:
             # hex strings: valid, uppercase, '+'-prefixed pairs, wrong length, bad digit
-            kind = rng.below(6)
+            kind = rng.below(7)
             d = boundary_digest() if rng.chance(1, 2) else bytes(ref.hexd(regs[rng.below(4)]), "ascii")
             s = d.hex() if len(d) == 32 else d.decode()
             if kind == 1:
@@ -193,11 +193,18 @@ def gen_case(rng, primes, stats):
                 s = s[:i] + rng.choice("gG-_ xz") + s[i + 1:]
             elif kind == 5:
                 s = s + rng.choice(["0", "00", "a"])
+            elif kind == 6:
+                # a character that is not ASCII (2, 3 or 4 bytes of UTF-8), keeping the BYTE length at 64
+                # or not: before a22f7bf the byte-offset slicing panicked off a character boundary
+                ch = rng.choice(["\u00e9", "\u20ac", "\U0001f600"])
+                n = len(ch.encode())
+                i = rng.below(64 - n + 1)
+                s = s[:i] + ch + (s[i + n:] if rng.chance(3, 4) else s[i + 1:])
             sb = s.encode()
             impl.append("fh %d %s" % (r, sb.hex()) if sb else "fh %d" % r)
             model.append(impl[-1])
             # reference parse
-            ok = len(s) == 64
+            ok = len(sb) == 64 and s.isascii()
             bs = []
             if ok:
                 for i in range(32):
